@@ -1,6 +1,7 @@
 package vh
 
 import (
+	"sort"
 	"bytes"
 	"crypto/sha256"
 	"encoding/binary"
@@ -99,6 +100,9 @@ type Proxy struct {
 	// ListsWhileLocked makes the emulated lock behave like an agent that keeps listing its identities
 	// while locked (hardware-style agents do).
 	ListsWhileLocked bool
+	// ListOrder: the order in which the emulated agent lists its identities: "" = insertion order (the keyring's) |
+	// reverse (newest first) | bycomment (sorted by comment). The protocol promises no order.
+	ListOrder string
 
 	// Latency, when set, delays the answer to a request of the given code (widens race windows).
 	Latency func(code int) time.Duration
@@ -408,7 +412,50 @@ func (p *Proxy) answer(req []byte, code int) []byte {
 	if err != nil {
 		return []byte{CodeFailure}
 	}
+	if code == CodeList && p.ListOrder != "" {
+		rep = reorderIdentities(rep, p.ListOrder)
+	}
 	return rep
+}
+
+// reorderIdentities rewrites an identities answer (code, count, then blob / comment string pairs) in another order.
+func reorderIdentities(rep []byte, order string) []byte {
+	if len(rep) < 5 || rep[0] != CodeIdentities {
+		return rep
+	}
+	n := int(binary.BigEndian.Uint32(rep[1:5]))
+	type ent struct{ raw, comment []byte }
+	var ents []ent
+	b := rep[5:]
+	for i := 0; i < n; i++ {
+		start := b
+		var parts [2][]byte
+		for k := 0; k < 2; k++ {
+			if len(b) < 4 {
+				return rep
+			}
+			l := int(binary.BigEndian.Uint32(b))
+			if len(b) < 4+l {
+				return rep
+			}
+			parts[k] = b[4 : 4+l]
+			b = b[4+l:]
+		}
+		ents = append(ents, ent{raw: start[:len(start)-len(b)], comment: parts[1]})
+	}
+	switch order {
+	case "reverse":
+		for i, j := 0, len(ents)-1; i < j; i, j = i+1, j-1 {
+			ents[i], ents[j] = ents[j], ents[i]
+		}
+	case "bycomment":
+		sort.SliceStable(ents, func(i, j int) bool { return bytes.Compare(ents[i].comment, ents[j].comment) < 0 })
+	}
+	out := append([]byte{}, rep[:5]...)
+	for _, e := range ents {
+		out = append(out, e.raw...)
+	}
+	return append(out, b...)
 }
 
 func sha256sum(b []byte) [32]byte { return sha256.Sum256(b) }
